@@ -1,16 +1,17 @@
 #!/bin/bash
 # usage: tools/verify_seeds.sh C01 C02 ...   runs each sub-agent's seeded/verify.sh in its scratch worktree
 # and stores the RESULT lines under /verif/seeded/<id>/verify_result.txt
+ROOT=${ROOT:-/tmp/mut}; TAG=${TAG:-}
 for P in "$@"; do
-  W=/tmp/mut/$P
+  W=$ROOT/$P
   [ -x $W/seeded/verify.sh ] || { echo "$P: no verify.sh"; continue; }
-  (cd $W && git checkout -q -- . && timeout 3000 bash seeded/verify.sh > /tmp/mut/$P.verify.log 2>&1; echo "exit=$?" >> /tmp/mut/$P.verify.log)
+  (cd $W && git checkout -q -- . && timeout 3000 bash seeded/verify.sh > $ROOT/$P.verify.log 2>&1; echo "exit=$?" >> $ROOT/$P.verify.log)
   k=1
-  grep "^RESULT" /tmp/mut/$P.verify.log | while read -r line; do
-    d=/verif/seeded/$P-$k
+  grep "^RESULT" $ROOT/$P.verify.log | while read -r line; do
+    d=/verif/seeded/$P-$TAG$k
     [ -d $d ] && echo "$line (re-run by the framework author on $(date -u +%F) in a scratch worktree)" > $d/verify_result.txt
     k=$((k+1))
   done
-  echo "$P: $(grep -c '^RESULT' /tmp/mut/$P.verify.log) results, $(tail -1 /tmp/mut/$P.verify.log)"
+  echo "$P: $(grep -c '^RESULT' $ROOT/$P.verify.log) results, $(tail -1 $ROOT/$P.verify.log)"
   (cd $W && git checkout -q -- . ; rm -rf _build_verify _build)
 done
